@@ -71,5 +71,13 @@ VF_MAIN
     {
         VF_ASSERT(count >= 1, "c09.gn_success_stores_entry");
     }
+#ifdef VF_FAULT_ALLOC
+    /* C19: a failed allocation is reported, never papered over */
+    if (vf_alloc_faults > 0)
+    {
+        VF_REACH("allocation_failed");
+        VF_ASSERT(rc < 0, "c19.gn_alloc_failure_reported");
+    }
+#endif
     VF_REACH("end");
 }
